@@ -1,6 +1,7 @@
 import PatVerif.Proofs.Recode
 import PatVerif.Proofs.EdGroup
 import PatVerif.Proofs.DoubleScalarMultRefine
+import PatVerif.Proofs.ScalarGlue
 /-!
 # C14 / C15: the scalar multiplications of the Ed25519 fork, end to end
 
@@ -106,6 +107,23 @@ theorem VarTimeDoubleScalarBaseMult_translated (a b : List Nat) (ha : IsScalar a
       Model.ScalarMultLit.doubleScalarMult Model.ScalarMultLit.basepointNafTable an bn A = some R ∧
       Proofs.EdRepr.ReprP3 R ((leNat a : Int) • gA + (leNat b : Int) • Proofs.ScalarBaseMultRefine.basePoint) :=
   Proofs.DoubleScalarMultRefine.doubleScalarMult_correct a b ha hb A gA hA
+
+/-- **public-key derivation of the Go code** (`ScalarBaseMult(SetBytesWithClamping(h))`, `h` the first half of SHA-512(seed)): for any
+32 bytes, clamping (three byte operations, translated `scReduce`), recoding and the fixed-base loop return a valid point standing for
+`(clamp(h) mod L) • B` -/
+theorem public_key_translated (h : List Nat) (hl : h.length = 32) (hb : ∀ i, h.getD i 0 < 256) :
+    ∃ out ds, Model.Clamp.setBytesWithClamping h = some out ∧ signedRadix16 (out.map Int.toNat) = some ds ∧
+      Proofs.EdRepr.ReprP3 (Model.ScalarMultLit.scalarBaseMult Model.ScalarMultLit.basepointTable ds)
+        ((Proofs.ScHelp.leFn (Model.Clamp.wideBytes h) 64 % Proofs.ScHelp.L) • Proofs.ScalarBaseMultRefine.basePoint) :=
+  Proofs.ScalarGlue.pubkey_translated h hl hb
+
+/-- **key blinding of the Go code** (C15: `ScalarMult(SetBytes(SHA-512(blind‖0‖ctx)[:32]), A)`): for any 32 bytes `x` and any valid key `A`
+standing for `g`, translated `SetBytes`, recoding and the variable-base loop return a valid point standing for `(x mod L) • g` -/
+theorem key_blinding_translated (x : Nat → Int) (hx : Proofs.ScScalar.IsBytes x) (q : Generated.EdPoints.Point) (g : EdPoint)
+    (hq : Proofs.EdRepr.ReprP3 q g) :
+    ∃ ds, signedRadix16 ((Generated.ScLimbs.Scalar_SetBytes x).map Int.toNat) = some ds ∧
+      Proofs.EdRepr.ReprP3 (Model.ScalarMultLit.scalarMult ds q) ((Proofs.ScHelp.leFn x 32 % Proofs.ScHelp.L) • g) :=
+  Proofs.ScalarGlue.blind_mult_translated x hx q g hq
 
 /-- non-vacuity of the three: the decoded generator is a valid point standing for the base point -/
 example : Proofs.EdRepr.ReprP3 Model.ScalarMultLit.generator Proofs.ScalarBaseMultRefine.basePoint :=
